@@ -388,6 +388,14 @@ def run_with_snapshots(ctx, cfg, path, load, snap_dir, label):
                 sc.execute(**algo_settings(cfg, load))
         except Exception as exc:  # noqa: BLE001
             error = exc
+    if cfg.get("second_exec_jac") and error is None:
+        with rec:
+            try:
+                sc.execution_status.value = sc.execution_status.Status.DONE
+                sc.execute(**algo_settings(cfg, load), eval_jac=True)
+                ctx.probe("second_execution_stores_on_old_entries")
+            except Exception as exc:  # noqa: BLE001
+                error = exc
     res = sc.optimization_result
     return {
         "K": counter.k, "calls": counter.calls, "snaps": snaps, "events": rec.events, "marks": rec.new_entry_marks,
@@ -436,6 +444,9 @@ def draw_config(t):
             cfg["samples"] = [[t.randint(-4, 4, f"s[{i}][{j}]") / 2.0 for j in range(cfg["nx"])] for i in range(cfg["n_samples"])]
         if cfg["formulation"] != "MDF" and t.flag(0.25, "first_execution_fails"):
             cfg["fail_first_at"] = t.randint(1, 4, "fail_first_at")
+        elif cfg["formulation"] != "MDF" and t.flag(0.6, "second_execution_with_jacobians"):
+            # the DOE is executed again with eval_jac=True: new outputs land on OLD entries while the backup is active
+            cfg["second_exec_jac"] = True
     return cfg
 
 
@@ -468,7 +479,7 @@ def run(ctx):
             n_nonempty += 1
     # --- restarts ---------------------------------------------------------------------------
     candidates = [k for k in range(1, K + 1) if ref["snaps"][k][0] is not None]
-    if cfg.get("fail_first_at"):
+    if cfg.get("fail_first_at") or cfg.get("second_exec_jac"):
         candidates = []  # (failed-then-re-executed runs: crash images only, no restart protocol)
     if ctx.tier == "thorough" and t.flag(0.5, "restart_all") and len(candidates) <= 150:
         chosen = candidates
@@ -509,7 +520,7 @@ def run(ctx):
     # --- real deaths -------------------------------------------------------------------------
     n_real = 0
     threaded = cfg["formulation"] == "MDF" and cfg["mda"] == "MDAJacobi/threads"
-    if K and not threaded and not cfg.get("fail_first_at") and t.flag(0.5 if ctx.tier == "quick" else 0.8, "real_death"):
+    if K and not threaded and not cfg.get("fail_first_at") and not cfg.get("second_exec_jac") and t.flag(0.5 if ctx.tier == "quick" else 0.8, "real_death"):
         for i in range(1 + t.choice(2, "n_real")):
             k = 1 + t.choice(K, f"real_k[{i}]")
             real_death_crosscheck(ctx, cfg, ref, k, scratch, sig_base)
